@@ -92,3 +92,13 @@ Qed.
 Theorem C03_float_ops_guarded :
   vm_float64_guarded = vm_float64_clauses /\ vm_float32_guarded = vm_float32_clauses /\ vm_bodies_identical = true.
 Proof. vm_compute. repeat split. Qed.
+
+(* ---- the number recogniser of the source, translated on every run (Base/ScanProg.v, Gen/ScanProgs.v) ---- *)
+From GJ Require Import Base.ScanProg Gen.ScanProgs Model.Compact Proofs.ScanProgP Proofs.CompactLeafP.
+(* a json.Number, and every number inside the output of a MarshalJSON method, is written only if internal/encoder/compact.go validNumber accepts it;
+   that function, as translated, returns for EVERY byte string whether it is an RFC 8259 number *)
+Theorem C03_number_recogniser_is_rfc : forall s, run_scanner enc_validNumber_prog s = Returned (json_number s).
+Proof.
+  intro s. assert (E : enc_validNumber_prog = vn_prog) by reflexivity. rewrite E, vn_prog_is_valid_number, valid_number_spec. reflexivity.
+Qed.
+Print Assumptions C03_number_recogniser_is_rfc.
